@@ -154,12 +154,12 @@ theorem soundObj : ∀ (lhs : Obj) (lc rc : Option PCtx) (rhs : Obj) (sel : Sel)
     · rename_i hplan
       exact leaf_case (nrm (.val st off w sg e) lc rc rhs sel ls rs lp rp) ps hplan h
     · cases h
-  | .int v w sg en, lc, rc, rhs, sel, ls, rs, lp, rp, ps, h => by
+  | .int v w sg en py, lc, rc, rhs, sel, ls, rs, lp, rp, ps, h => by
     rw [assignObj] at h
     split at h
     · cases h
     · rename_i hplan
-      exact leaf_case (nrm (.int v w sg en) lc rc rhs sel ls rs lp rp) ps hplan h
+      exact leaf_case (nrm (.int v w sg en py) lc rc rhs sel ls rs lp rp) ps hplan h
     · cases h
   | .enumv st off w id, lc, rc, rhs, sel, ls, rs, lp, rp, ps, h => by
     rw [assignObj] at h
@@ -310,13 +310,13 @@ theorem completeObj : ∀ (lhs : Obj) (lc rc : Option PCtx) (rhs : Obj) (sel : S
     · rename_i hplan
       exact leaf_reach (nrm (.val st off w sg e) lc rc rhs sel ls rs lp rp) ps hplan h c' hreach hleaf
     · cases h
-  | .int v w sg en, lc, rc, rhs, sel, ls, rs, lp, rp, ps, h => by
+  | .int v w sg en py, lc, rc, rhs, sel, ls, rs, lp, rp, ps, h => by
     rw [assignObj] at h
     intro c' hreach hleaf
     split at h
     · cases h
     · rename_i hplan
-      exact leaf_reach (nrm (.int v w sg en) lc rc rhs sel ls rs lp rp) ps hplan h c' hreach hleaf
+      exact leaf_reach (nrm (.int v w sg en py) lc rc rhs sel ls rs lp rp) ps hplan h c' hreach hleaf
     · cases h
   | .enumv st off w id, lc, rc, rhs, sel, ls, rs, lp, rp, ps, h => by
     rw [assignObj] at h
@@ -448,7 +448,7 @@ theorem leaf_spec (lc : Option PCtx) (lhs : Obj) (rc : Option PCtx) (rhs : Obj) 
     ∃ l ul r ur, unwrap lc lhs = .ok (l, ul) ∧ unwrap rc rhs = .ok (r, ur) ∧
       p.lpath = lp ++ ul ∧ p.rpath = rp ++ ur ∧ p.flow = flowOf lc l rc r ∧
       p.checked = (isVC lc l || isVC rc r ||
-        ((ls || !ul.isEmpty || explicit lc l) && (rs || !ur.isEmpty || explicit rc r))) ∧
+        ((strictAfter ls ul l || explicit lc l) && (strictAfter rs ur r || explicit rc r))) ∧
       (p.checked = true → shapeEq (shapeOf lc l) (shapeOf rc r) = true) := by
   unfold assignLeaf at h
   split at h
@@ -553,12 +553,12 @@ def Fails (c : Call) : Prop :=
 
 /-- a plain value or an int on the left is never descended into -/
 theorem plan_scalar (lc : Option PCtx) (lhs : Obj) (rc : Option PCtx) (rhs : Obj) (sel : Sel) (names : List Key)
-    (hs : (∃ st off w sg e, lhs = .val st off w sg e) ∨ (∃ v w sg en, lhs = .int v w sg en) ∨
+    (hs : (∃ st off w sg e, lhs = .val st off w sg e) ∨ (∃ v w sg en py, lhs = .int v w sg en py) ∨
       ∃ st off w id, lhs = .enumv st off w id) :
     plan lc lhs rc rhs sel ≠ .ok (.descend names) := by
   intro h
   unfold plan at h
-  rcases hs with ⟨st, off, w, sg, e, rfl⟩ | ⟨v, w, sg, en, rfl⟩ | ⟨st, off, w, id, rfl⟩
+  rcases hs with ⟨st, off, w, sg, e, rfl⟩ | ⟨v, w, sg, en, py, rfl⟩ | ⟨st, off, w, id, rfl⟩
   all_goals
     simp only [argFields] at h
     split at h
@@ -631,7 +631,7 @@ theorem errObj : ∀ (lhs : Obj) (lc rc : Option PCtx) (rhs : Obj) (sel : Sel) (
       exact ⟨_, .refl _, .inr (.inl ⟨hplan, e, h⟩)⟩
     · rename_i names hplan
       exact absurd hplan (plan_scalar _ _ _ _ _ names (.inl ⟨st, off, w, sg, ex, rfl⟩))
-  | .int v w sg en, lc, rc, rhs, sel, ls, rs, lp, rp, e, h => by
+  | .int v w sg en py, lc, rc, rhs, sel, ls, rs, lp, rp, e, h => by
     rw [assignObj] at h
     split at h
     · rename_i e' hplan
@@ -639,7 +639,7 @@ theorem errObj : ∀ (lhs : Obj) (lc rc : Option PCtx) (rhs : Obj) (sel : Sel) (
     · rename_i hplan
       exact ⟨_, .refl _, .inr (.inl ⟨hplan, e, h⟩)⟩
     · rename_i names hplan
-      exact absurd hplan (plan_scalar _ _ _ _ _ names (.inr (.inl ⟨v, w, sg, en, rfl⟩)))
+      exact absurd hplan (plan_scalar _ _ _ _ _ names (.inr (.inl ⟨v, w, sg, en, py, rfl⟩)))
   | .enumv st off w id, lc, rc, rhs, sel, ls, rs, lp, rp, e, h => by
     rw [assignObj] at h
     split at h
@@ -838,13 +838,13 @@ theorem okObj : ∀ (lhs : Obj) (lc rc : Option PCtx) (rhs : Obj) (sel : Sel) (l
     · rename_i hplan
       exact leaf_nofail (nrm (.val st off w sg ex) lc rc rhs sel ls rs lp rp) ps hplan h c' hreach hf
     · cases h
-  | .int v w sg en, lc, rc, rhs, sel, ls, rs, lp, rp, ps, h => by
+  | .int v w sg en py, lc, rc, rhs, sel, ls, rs, lp, rp, ps, h => by
     rw [assignObj] at h
     intro c' hreach hf
     split at h
     · cases h
     · rename_i hplan
-      exact leaf_nofail (nrm (.int v w sg en) lc rc rhs sel ls rs lp rp) ps hplan h c' hreach hf
+      exact leaf_nofail (nrm (.int v w sg en py) lc rc rhs sel ls rs lp rp) ps hplan h c' hreach hf
     · cases h
   | .enumv st off w id, lc, rc, rhs, sel, ls, rs, lp, rp, ps, h => by
     rw [assignObj] at h
@@ -975,7 +975,7 @@ theorem nodupObj : ∀ (lhs : Obj) (lc rc : Option PCtx) (rhs : Obj) (sel : Sel)
     · cases h
     · obtain ⟨p, rfl⟩ := assignLeaf_single _ _ _ _ _ _ _ _ _ _ h; simp
     · cases h
-  | .int v w sg en, lc, rc, rhs, sel, ls, rs, lp, rp, ps, hw, h => by
+  | .int v w sg en py, lc, rc, rhs, sel, ls, rs, lp, rp, ps, hw, h => by
     rw [assignObj] at h
     split at h
     · cases h
@@ -1142,7 +1142,7 @@ theorem member_side (c : Option PCtx) (o m : Obj) (strict : Bool) (h : SideOK c 
     cases hi : isInt m <;> simp [isValueLike]
   | val st off w sg e =>
     exact ⟨false, hm' (by simp [Obj.members, okEM]), fun h => by cases h⟩
-  | int v w sg en =>
+  | int v w sg en py =>
     exact ⟨false, hm' (by simp [Obj.members, okEM]), fun h => by cases h⟩
   | enumv st off w id =>
     exact ⟨false, hm' (by simp [Obj.members, okEM]), fun h => by cases h⟩
@@ -1156,7 +1156,7 @@ theorem strip_side (c : Option PCtx) (o : Obj) (strict : Bool) (h : SideOK c o s
     rw [okE] at hb
     exact ⟨⟨true, hb, fun _ => .inr (.inl rfl)⟩, .inl rfl⟩
   | val st off w sg e => exact ⟨h, .inr (by intro i s t e; cases e)⟩
-  | int v w sg en => exact ⟨h, .inr (by intro i s t e; cases e)⟩
+  | int v w sg en py => exact ⟨h, .inr (by intro i s t e; cases e)⟩
   | enumv st off w id => exact ⟨h, .inr (by intro i s t e; cases e)⟩
   | const k sz v fl ms => exact ⟨h, .inr (by intro i s t e; cases e)⟩
   | view k st off sz ms => exact ⟨h, .inr (by intro i s t e; cases e)⟩
@@ -1184,7 +1184,7 @@ theorem inv_step {a b : Call} (hi : Inv a) (hs : Step a b) : Inv b := by
           | const k' sz v fl ms =>
             rw [hR2] at hb hlook; rw [okE] at hb; exact ⟨true, okEM_lookup true _ k r hb hlook⟩
           | val st off w sg e => rw [hR2] at hlook; simp [Obj.members, Members.lookup] at hlook
-          | int v w sg en => rw [hR2] at hlook; simp [Obj.members, Members.lookup] at hlook
+          | int v w sg en py => rw [hR2] at hlook; simp [Obj.members, Members.lookup] at hlook
           | enumv st off w id => rw [hR2] at hlook; simp [Obj.members, Members.lookup] at hlook
         obtain ⟨b', hb'⟩ := this
         exact ⟨b', hb', fun _ => .inr (.inl hsome)⟩
@@ -1208,15 +1208,17 @@ def isLit : Obj → Bool
 /-- an operand that is neither a Python constant nor a container is explicit, strict, or was reached by unwrapping -/
 theorem side_checked (c : Option PCtx) (o l : Obj) (ul : Path) (strict : Bool) (h : SideOK c o strict)
     (hp : c.isSome = true ∨ NotProxy o) (hv : isValueLike o = true) (hu : unwrap c o = .ok (l, ul))
-    (hint : isLit l = false) : (strict || !ul.isEmpty || explicit c l) = true := by
+    (hint : isLit l = false) : (strictAfter strict ul l || explicit c l) = true := by
   cases ul with
-  | cons k t => simp
+  | cons k t =>
+    have : isInt l = false := by cases l <;> simp_all [isLit, isInt]
+    simp [strictAfter, this]
   | nil =>
     have := chain_nil c o l (unwrap_chain c o l [] hu)
     subst this
     obtain ⟨b, hb, hstrict⟩ := h
     cases l with
-    | int v w sg en => simp [isLit] at hint
+    | int v w sg en py => simp [isLit] at hint
     | enumv st off w id => simp [explicit]
     | const k sz v fl ms => simp [explicit]
     | dict ms => simp [isValueLike] at hv
@@ -1230,7 +1232,7 @@ theorem side_checked (c : Option PCtx) (o l : Obj) (ul : Path) (strict : Bool) (
       rw [okE] at hb
       rcases hb with hb | hb
       · rcases hstrict hb with h1 | h1 | h1
-        · simp [h1]
+        · simp [strictAfter, h1]
         · simp [explicit, h1]
         · simp [isInt] at h1
       · simp [explicit, hb]
